@@ -575,6 +575,10 @@ impl<'a> Exec<'a> {
             return;
         }
         let i = candidates[pick_index(raw, candidates.len())];
+        self.poll_index(i, fresh_waker);
+    }
+
+    fn poll_index(&mut self, i: usize, fresh_waker: bool) {
         self.sync_events();
         self.update_consumed();
         let (head, tail, _, _, entries) = self.ring_words();
@@ -1117,6 +1121,18 @@ impl<'a> Exec<'a> {
                 sim::fail_next_enter(0);
                 self.feat("enter-failed");
                 self.update_consumed();
+                // Whatever a10 handed to an operation during this call must be
+                // released by now (a completion acted upon but still inside
+                // [head, tail) is processed again by the next Ring::poll):
+                // operations whose waker fired are polled, against the model.
+                let woken = self.live_indices(|o| o.fut.is_some() && o.phase == Phase::Submitted && o.polled && o.waker.wakes() > o.wakes_at_poll);
+                for i in woken {
+                    if self.stop {
+                        break;
+                    }
+                    self.feat("polled-after-failed-enter");
+                    self.poll_index(i, false);
+                }
                 return;
             }
             Ok(Err(e)) => {
